@@ -1,3 +1,282 @@
 package c01
 
-func childMain() {}
+import (
+	"bufio"
+	"fmt"
+	"io"
+	"os"
+	"os/exec"
+	"sort"
+	"strconv"
+	"strings"
+	"testing"
+	"time"
+
+	"verifharness/internal/ev"
+	"verifharness/internal/fakes"
+	"verifharness/internal/gen"
+
+	"github.com/ipfs/ipfs-cluster/api"
+	peer "github.com/libp2p/go-libp2p-core/peer"
+	"pgregory.net/rapid"
+)
+
+// C01-b: crash harness. A single-member Raft peer runs in a child process
+// (this test binary re-executed as "raft-child <folder> <threshold>
+// <intervalMs> <trailing>"); the parent sends operations over stdin, reads
+// acknowledgements from stdout and kills the child with SIGKILL at a drawn
+// point. The peer is restarted on the same folder and must list the pinset
+// of the acknowledged sequence (optionally followed by the one operation
+// that was in flight when the kill came).
+
+func childMain() {
+	folder := os.Args[2]
+	thr, _ := strconv.Atoi(os.Args[3])
+	iv, _ := strconv.Atoi(os.Args[4])
+	trail, _ := strconv.Atoi(os.Args[5])
+	p := fakes.NewRaftHost(gen.PeerKeys[0], folder)
+	p.Init = []peer.ID{p.H.ID()}
+	p.Tuning = fakes.RaftTuning{SnapshotThreshold: uint64(thr), SnapshotInterval: time.Duration(iv) * time.Millisecond, TrailingLogs: uint64(trail)}
+	out := bufio.NewWriter(os.Stdout)
+	say := func(s string) { out.WriteString(s + "\n"); out.Flush() }
+	if err := p.Start(false); err != nil {
+		say("FATAL " + err.Error())
+		os.Exit(3)
+	}
+	if err := p.WaitReady(60 * time.Second); err != nil {
+		say("FATAL " + err.Error())
+		os.Exit(3)
+	}
+	say("READY")
+	in := bufio.NewScanner(os.Stdin)
+	for in.Scan() {
+		f := strings.SplitN(in.Text(), " ", 3)
+		switch f[0] {
+		case "pin", "unpin":
+			i, _ := strconv.Atoi(f[1])
+			pin := api.PinCid(gen.Cids[i])
+			pin.ReplicationFactorMin, pin.ReplicationFactorMax = -1, -1
+			var err error
+			if f[0] == "pin" {
+				if len(f) > 2 {
+					pin.Name = f[2]
+				}
+				err = p.Cons.LogPin(ctx, pin)
+			} else {
+				err = p.Cons.LogUnpin(ctx, pin)
+			}
+			if err != nil {
+				say("err " + strings.ReplaceAll(err.Error(), "\n", " "))
+			} else {
+				say("ack")
+			}
+		case "list":
+			pins, err := p.Pins()
+			if err != nil {
+				say("err " + err.Error())
+				continue
+			}
+			var l []string
+			for _, pn := range pins {
+				l = append(l, pn.Cid.String()+"="+pn.Name)
+			}
+			say("list " + strings.Join(l, ";"))
+		case "quit":
+			p.Stop()
+			say("bye")
+			os.Exit(0)
+		}
+	}
+	// stdin closed: parent is gone
+	os.Exit(0)
+}
+
+type child struct {
+	cmd *exec.Cmd
+	in  io.WriteCloser
+	out *bufio.Reader
+}
+
+func startChild(folder string, thr, iv, trail int) (*child, error) {
+	cmd := exec.Command(os.Args[0], "raft-child", folder, strconv.Itoa(thr), strconv.Itoa(iv), strconv.Itoa(trail))
+	cmd.Env = append(os.Environ(), "GOLOG_LOG_LEVEL=fatal")
+	cmd.Stderr = nil
+	in, err := cmd.StdinPipe()
+	if err != nil {
+		return nil, err
+	}
+	outp, err := cmd.StdoutPipe()
+	if err != nil {
+		return nil, err
+	}
+	if err := cmd.Start(); err != nil {
+		return nil, err
+	}
+	c := &child{cmd: cmd, in: in, out: bufio.NewReader(outp)}
+	line, err := c.read(90 * time.Second)
+	if err != nil || line != "READY" {
+		c.kill()
+		return nil, fmt.Errorf("child did not become ready: %q %v", line, err)
+	}
+	return c, nil
+}
+
+func (c *child) read(d time.Duration) (string, error) {
+	type res struct {
+		s   string
+		err error
+	}
+	ch := make(chan res, 1)
+	go func() {
+		s, err := c.out.ReadString('\n')
+		ch <- res{strings.TrimRight(s, "\n"), err}
+	}()
+	select {
+	case r := <-ch:
+		return r.s, r.err
+	case <-time.After(d):
+		return "", fmt.Errorf("no answer from the child within %v", d)
+	}
+}
+
+func (c *child) send(s string) { io.WriteString(c.in, s+"\n") }
+
+func (c *child) kill() {
+	c.cmd.Process.Kill()
+	c.cmd.Wait()
+}
+
+type crashOp struct {
+	unpin bool
+	cid   int
+	name  string
+}
+
+func (o crashOp) line() string {
+	if o.unpin {
+		return fmt.Sprintf("unpin %d", o.cid)
+	}
+	return fmt.Sprintf("pin %d %s", o.cid, o.name)
+}
+
+func applyOps(ops []crashOp) string {
+	m := map[string]string{}
+	for _, o := range ops {
+		k := gen.Cids[o.cid].String()
+		if o.unpin {
+			delete(m, k)
+		} else {
+			m[k] = o.name
+		}
+	}
+	var l []string
+	for k, v := range m {
+		l = append(l, k+"="+v)
+	}
+	sort.Strings(l)
+	return strings.Join(l, ";")
+}
+
+const ruleCrash = "single-member Raft peer in a child process (real consensus/raft, BoltDB log and file snapshots in a temp folder, snapshot threshold 2-5, interval 50-200 ms, trailing logs 0-2); 1-3 rounds of 1-8 pin/unpin operations over 3 CIDs, each round ended by SIGKILL either right after the last acknowledgement or a drawn 0-3000 microseconds after one more operation was submitted (in flight); after each restart on the same folder the listing must equal the model of the acknowledged sequence, optionally followed by the in-flight operation; non-trivial = an unpin or a re-pin of a pinned CID happened before a kill and at least one kill had an operation in flight or came after the snapshot threshold was passed; distinct by script"
+
+func TestCrash(t *testing.T) {
+	leg := ev.L("crash", ruleCrash)
+	caseN := 0
+	rapid.Check(t, func(t *rapid.T) {
+		caseN++
+		folder := fmt.Sprintf("%s/crash-%d", workdir, caseN)
+		os.MkdirAll(folder, 0o755)
+		defer os.RemoveAll(folder)
+		thr := rapid.IntRange(2, 5).Draw(t, "snapThreshold")
+		iv := rapid.IntRange(50, 200).Draw(t, "snapIntervalMs")
+		trail := rapid.IntRange(0, 2).Draw(t, "trailing")
+		rounds := rapid.IntRange(1, 3).Draw(t, "rounds")
+		var acked []crashOp
+		var script []string
+		rewrite, inflightKill, pastThreshold := false, false, false
+		present := map[int]bool{}
+		for r := 0; r < rounds; r++ {
+			c, err := startChild(folder, thr, iv, trail)
+			if err != nil {
+				leg.Inconclusive("child start: " + err.Error())
+				t.Skip("child did not start")
+			}
+			// the restarted peer must hold exactly what was acknowledged
+			// (checked below for r > 0 via the pending expectation)
+			n := rapid.IntRange(1, 8).Draw(t, "ops")
+			for i := 0; i < n; i++ {
+				o := crashOp{unpin: rapid.IntRange(0, 2).Draw(t, "unpin") == 0, cid: rapid.IntRange(0, 2).Draw(t, "cid"), name: rapid.SampledFrom([]string{"a", "b", "c"}).Draw(t, "name")}
+				c.send(o.line())
+				ans, err := c.read(60 * time.Second)
+				if err != nil || ans != "ack" {
+					c.kill()
+					leg.Inconclusive("operation not acknowledged: " + ans)
+					t.Skip("operation not acknowledged")
+				}
+				if o.unpin || present[o.cid] {
+					rewrite = true
+				}
+				present[o.cid] = !o.unpin
+				acked = append(acked, o)
+				script = append(script, o.line())
+			}
+			if len(acked) > thr {
+				pastThreshold = true
+			}
+			var inflight *crashOp
+			if rapid.IntRange(0, 1).Draw(t, "killInFlight") == 1 {
+				o := crashOp{unpin: rapid.IntRange(0, 2).Draw(t, "unpin") == 0, cid: rapid.IntRange(0, 2).Draw(t, "cid"), name: "x"}
+				d := rapid.IntRange(0, 3000).Draw(t, "delayMicros")
+				c.send(o.line())
+				time.Sleep(time.Duration(d) * time.Microsecond)
+				inflight = &o
+				inflightKill = true
+				script = append(script, fmt.Sprintf("%s [in flight, kill after %dus]", o.line(), d))
+			} else if rapid.IntRange(0, 1).Draw(t, "waitSnapshot") == 1 {
+				// let the snapshot timer fire before the kill
+				time.Sleep(time.Duration(iv*2) * time.Millisecond)
+				script = append(script, "wait-snapshot")
+			}
+			c.kill()
+			script = append(script, "KILL")
+			// restart and compare
+			c2, err := startChild(folder, thr, iv, trail)
+			if err != nil {
+				t.Fatalf("the peer does not come back after kill -9: %v\nscript: %v", err, script)
+			}
+			c2.send("list")
+			ans, err := c2.read(60 * time.Second)
+			c2.kill()
+			if err != nil || !strings.HasPrefix(ans, "list ") {
+				t.Fatalf("no listing after restart: %q %v\nscript: %v", ans, err, script)
+			}
+			got := strings.TrimPrefix(ans, "list ")
+			want := applyOps(acked)
+			if got != want {
+				if inflight != nil {
+					with := append(append([]crashOp{}, acked...), *inflight)
+					if got == applyOps(with) {
+						acked = with
+						if inflight.unpin || present[inflight.cid] {
+							rewrite = true
+						}
+						present[inflight.cid] = !inflight.unpin
+						continue
+					}
+				}
+				t.Fatalf("after kill -9 and restart the peer lists [%s]; the acknowledged sequence gives [%s]\nscript: %v", got, want, script)
+			}
+		}
+		cls := []string{}
+		if inflightKill {
+			cls = append(cls, "in-flight-kill")
+		}
+		if pastThreshold {
+			cls = append(cls, "past-snapshot-threshold")
+		}
+		leg.Case(fmt.Sprintf("thr=%d iv=%d trail=%d %s", thr, iv, trail, strings.Join(script, " | ")), rewrite && (inflightKill || pastThreshold), cls...)
+	})
+}
+
+var _ = ev.Flush
+var _ testing.T
